@@ -258,6 +258,7 @@ var Faults = []string{
 	"dup-inherited-property", "dup-inherited-property-beside-allof", "circular-ancestry-direct", "circular-ancestry-indirect", "circular-ancestry-pure-ref-cycle",
 	"overlapping-paths", "invalid-pattern-param", "invalid-pattern-header", "invalid-pattern-schema", "invalid-pattern-items",
 	"missing-paths", "empty-placeholder",
+	"array-no-items-referenced-response-typelist", "two-body-params-go-name-collision",
 }
 
 func (g *SpecGen) params(op map[string]any) []any {
@@ -507,6 +508,26 @@ func (g *SpecGen) Apply(fault string) (applied bool, strictOnly bool) {
 			break
 		}
 		defs["Child"+g.Tag] = map[string]any{"allOf": []any{map[string]any{"$ref": "#/definitions/" + base}, map[string]any{"type": "object", "properties": map[string]any{pn: map[string]any{"type": "string"}}}}}
+		return true, false
+	case "array-no-items-referenced-response-typelist":
+		// a response of the top-level section, referred to by an operation, whose schema is an array (type given as a
+		// list, which the Swagger meta-schema pre-check does not look at) without items
+		if g.NoRefs {
+			return false, false
+		}
+		o := g.anyOp()
+		doc["responses"].(map[string]any)["NoItems"+g.Tag] = map[string]any{"description": "array without items", "schema": map[string]any{"type": []any{"array"}}}
+		o.op["responses"].(map[string]any)["409"] = map[string]any{"$ref": "#/responses/NoItems" + g.Tag}
+		return true, false
+	case "two-body-params-go-name-collision":
+		// two body parameters whose names differ but map to the same Go identifier
+		o := g.writableOp()
+		if o == nil {
+			return false, false
+		}
+		ps := dropIn(g.params(o.op), "body", "formData")
+		delete(o.op, "consumes")
+		o.op["parameters"] = append(ps, map[string]any{"name": "a-b", "in": "body", "schema": map[string]any{"type": "object"}}, map[string]any{"name": "a_b", "in": "body", "schema": map[string]any{"type": "object"}})
 		return true, false
 	case "dup-inherited-property-beside-allof":
 		// the child declares the inherited name in its own "properties", beside (not inside) allOf
